@@ -159,7 +159,7 @@ Proof.
   - intros s is s1 t E [HZ|[Hd _]]; [destruct (z_order_some _ _ _ E) as [_ ->]; exact HZ|]. unfold z_order in E. rewrite Hd in E. discriminate.
   - intros s t HZ. cbn. left. apply Zl_endp. exact HZ.
   - intros s t o _ E. discriminate.
-  - intros s t _ [HZ|HZ]; [left; apply Zl_endp|right; apply Zf_endp]; auto.
+  - intros s t _ _ [HZ|HZ]; [left; apply Zl_endp|right; apply Zf_endp]; auto.
   - intros _ s t HZ. left. apply Zl_endp. exact HZ.
   - intros; exact I.
   - intros; exact I.
